@@ -207,6 +207,8 @@ class Fn:
 
     def fresh(self, base):
         base = coq_ident(base) or "t"
+        if base[0].isdigit():
+            base = "v" + base
         n = self.counter.get(base, 0)
         self.counter[base] = n + 1
         return base if n == 0 and base not in ("O", "T", "fun", "let", "in", "if", "then", "else", "at", "as") else "%s_%d" % (base, n)
@@ -421,10 +423,11 @@ class Fn:
                 args.append(self.real(self.expr(a, env)))
             elif pk[0] == "val":
                 args += self.struct_value(a, env)
-            elif pk[0] == "ptr":
+            elif pk[0] in ("ptr", "cptr"):
                 base = self.struct_base(a, env)
                 args += [self.read_loc(("mem", base[0], base[1] + p), env, n) for p in pk[2]]
-                writes.append((base, pk[2]))
+                if pk[0] == "ptr":
+                    writes.append((base, pk[2]))
             else:
                 raise Unsupported("call to %s: parameter kind %s at %s" % (fname, pk[0], self.where(n)))
         ext = ["x_" + self.use_extern(e)[2:] for e in sig.get("externs", [])]
@@ -494,6 +497,16 @@ class Fn:
                     v = self.real(v) if is_real_type(q) else v
                     self.assign(("var", d["name"]), v, env)
             return self.block(rest, env, k)
+        if kind == "LabelStmt":
+            return self.block(s.get("inner", []) + rest, env, k)
+        if kind == "GotoStmt":
+            # forward jump to a label among the top-level statements of the function body (the `exit:` / `fail:` idiom):
+            # the continuation is everything from the label to the end of the function
+            target = s.get("targetLabelDeclId")
+            for i, t in enumerate(self.top_stmts):
+                if t.get("kind") == "LabelStmt" and t.get("declId") == target:
+                    return self.block(self.top_stmts[i:], env, self.k_end)
+            raise Unsupported("goto to a label that is not at the top level of the function at %s" % self.where(s))
         if kind == "ReturnStmt":
             inner = s.get("inner", [])
             rv = self.real(self.expr(inner[0], env)) if inner else None
@@ -575,7 +588,15 @@ class Fn:
             name = p.get("name", "_")
             rec = self.tu.record_of(q) if "*" in q else None
             vrec = self.rec_of_type(q)
-            if rec:
+            if rec and re.match(r"^(const\s+\w+|\w+\s+const)\s*\*", q.replace("struct ", "")):
+                # pointer to const: the members are inputs only
+                paths = self.real_paths(rec)
+                self.param_kinds.append(("cptr", name, paths))
+                for path in paths:
+                    v = self.fresh("%s_%s" % (name, path))
+                    binders.append(v)
+                    env[("mem", name, path)] = v
+            elif rec:
                 fields = self.tu.flatten(rec)
                 self.structs.append((name, rec, fields))
                 self.param_kinds.append(("ptr", name, [p_ for p_, k_ in fields if k_ == "real"]))
@@ -604,6 +625,8 @@ class Fn:
             else:
                 raise Unsupported("parameter %s : %s of %s" % (name, q, self.name))
         k_end = lambda e: self.flush(self.result(e, None))
+        self.top_stmts = body.get("inner", [])
+        self.k_end = k_end
         term = self.block(body.get("inner", []), env, k_end)
         read_binders = [v for (_, _, v) in self.reads]
         sig = {"name": self.name, "binders": binders + read_binders,
